@@ -170,8 +170,8 @@ attribute [ctl_gen] K onCode onErrno onPid onState onIgn onArg onApi onNames onA
   dflt_a0 do_add_a1 do_add_a3 do_add_a4 do_add_a5 do_add_g0 do_add_g1 do_add_g2
   do_add_g3 do_avail_a0 do_avail_a3 do_avail_g0 do_avail_g1 do_clear_a1 do_clear_g1 do_clear_g2
   do_maintail_a1 do_maintail_a12 do_maintail_a6 do_maintail_a8 do_maintail_a9 do_maintail_g1 do_maintail_g2 do_maintail_g5
-  do_maintail_g6 do_pid_a4 do_pid_a6 do_pid_g1 do_pid_g2 do_pid_g3 do_pid_g4 do_reload_a0
-  do_reload_a5 do_reload_g0 do_reload_g3 do_remove_a1 do_remove_a3 do_remove_g0 do_remove_g1 do_remove_g2
+  do_maintail_g6 do_pid_a4 do_pid_a6 do_pid_g1 do_pid_g2 do_pid_g3 do_pid_g4 do_pid_g5 do_reload_a0
+  do_reload_a5 do_reload_g0 do_reload_g3 do_remove_a1 do_remove_a3 do_remove_g0 do_remove_g1 do_remove_g2 do_remove_g3
   do_reread_a0 do_reread_a3 do_reread_g0 do_reread_g1 do_reread_g2 do_restart_a1 do_restart_g1 do_shutdown_a0
   do_shutdown_a5 do_shutdown_a6 do_shutdown_g0 do_shutdown_g3 do_shutdown_g4 do_shutdown_g5 do_signal_a1 do_signal_a11
   do_signal_a9 do_signal_g1 do_signal_g2 do_signal_g3 do_signal_g4 do_signal_g5 do_start_a10 do_start_a2
